@@ -294,11 +294,11 @@ func ruleCommitClear(c *RC) *RuleResult {
 		for _, s := range ws {
 			r.Sites++
 			if s.Store&KillAny != 0 {
-				if s.Fn != c.A.epochWriter {
+				if !c.inEpoch(s.Fn) {
 					r.fail(s.Fn.Name+"/write:"+table, c.Prog.Pos(s.Node), "table "+table+" re-assigned/cleared outside the epoch writer")
 					continue
 				}
-				d := c.A.newDemand(nil)
+				d := c.epochDemand()
 				if f := d.ProveAt(s, func(sn *Snap) *Formula { return eq(vp, tZero) }); f != nil {
 					r.fail(s.Fn.Name+"/write:"+table, c.Prog.Pos(s.Node), "table "+table+" cleared on a view change (must survive until the height changes): "+f.String())
 				} else {
@@ -401,14 +401,14 @@ func ruleEpochOwner(c *RC) *RuleResult {
 		}
 		for _, s := range ws {
 			r.Sites++
-			if s.Fn != c.A.epochWriter {
+			if !c.inEpoch(s.Fn) {
 				r.fail(s.Fn.Name+"/write:"+loc, c.Prog.Pos(s.Node), loc+" assigned outside the epoch writer "+c.A.epochWriter.Name)
 				continue
 			}
 			good := true
 			if loc == "ctx.ViewNumber" {
 				for _, sn := range s.Snaps {
-					if sn.Val == nil || sn.Val.S != "p:"+c.A.epochViewParm.Name() {
+					if sn.Val == nil || sn.Val.K != KParam || !c.isViewParam(s.Fn, sn.Val) {
 						good = false
 					}
 				}
@@ -561,7 +561,11 @@ func ruleTip(c *RC) *RuleResult {
 	want := map[string]string{"ctx.PrevHash": "CurrentBlockHash", "ctx.BlockIndex": "CurrentHeight+1", "ctx.Validators": "GetValidators", "ctx.timePerBlock": "TimePerBlock"}
 	got := map[string]string{}
 	info := c.A.epochWriter.Pkg.TypesInfo
-	ast.Inspect(c.A.epochWriter.Decl.Body, func(n ast.Node) bool {
+	for _, cf := range c.Prog.dbftFuncs() {
+	if !c.inEpoch(cf) {
+		continue
+	}
+	ast.Inspect(cf.Decl.Body, func(n ast.Node) bool {
 		as, ok := n.(*ast.AssignStmt)
 		if !ok || len(as.Lhs) != len(as.Rhs) {
 			return true
@@ -579,6 +583,7 @@ func ruleTip(c *RC) *RuleResult {
 		}
 		return true
 	})
+	}
 	for loc, w := range want {
 		r.Sites++
 		if got[loc] == w {
@@ -592,7 +597,7 @@ func ruleTip(c *RC) *RuleResult {
 	vp.Unsigned = true
 	for _, loc := range []string{"ctx.PrevHash", "ctx.BlockIndex", "ctx.Validators"} {
 		for _, s := range c.writesTo(loc) {
-			d := c.A.newDemand(nil)
+			d := c.epochDemand()
 			r.Sites++
 			if f := d.ProveAt(s, func(sn *Snap) *Formula { return eq(vp, tZero) }); f != nil {
 				r.fail(s.Fn.Name+"/view0:"+loc, c.Prog.Pos(s.Node), loc+" re-assigned on a view change: "+f.String())
@@ -634,7 +639,6 @@ func srcDesc(info *types.Info, e ast.Expr) string {
 // O-PROPOSAL: Timestamp/Nonce/TransactionHashes writers and sources
 func ruleProposalFields(c *RC) *RuleResult {
 	r := &RuleResult{Rule: "O-PROPOSAL", Kind: "OWN+PROV", Doc: "Timestamp, Nonce, TransactionHashes are assigned only in the proposal receiver (from the like-named getters of the request), the proposal builder, and cleared by the epoch writer"}
-	builder := c.proposalBuilder()
 	for _, f := range []struct{ loc, getter string }{{"ctx.Timestamp", "PrepareRequest.Timestamp"}, {"ctx.Nonce", "PrepareRequest.Nonce"}, {"ctx.TransactionHashes", "PrepareRequest.TransactionHashes"}} {
 		ws := c.writesTo(f.loc)
 		if len(ws) == 0 {
@@ -644,7 +648,7 @@ func ruleProposalFields(c *RC) *RuleResult {
 		for _, s := range ws {
 			r.Sites++
 			switch {
-			case s.Fn == builder || s.Fn == c.A.epochWriter:
+			case c.inBuilder(s.Fn) || c.inEpoch(s.Fn):
 				r.ok(fmt.Sprintf("%s written in %s", f.loc, s.Fn.Name))
 			default:
 				good := true
@@ -679,7 +683,7 @@ func ruleProposalFields(c *RC) *RuleResult {
 			r.unresolved(name)
 			continue
 		}
-		if orderedFill(fn) {
+		if c.orderedFillReach(fn, 0) {
 			r.ok(name + ": txx[i] = Transactions[h] with (i, h) ranging TransactionHashes in order")
 		} else {
 			r.fail(name+"/order", c.Prog.Pos(fn.Decl), "transactions are not filled by ranging TransactionHashes with the range index")
@@ -697,20 +701,36 @@ func (c *RC) fProposalAdmission() *Formula {
 
 func (c *RC) proposalBuilder() *FuncInfo {
 	for _, fn := range c.Prog.dbftFuncs() {
-		calls, writes := false, false
+		calls := false
 		for _, s := range c.A.FnSites[fn] {
 			if s.Kind == "call" && s.Callee == "cb:GetVerified" {
 				calls = true
 			}
-			if s.Kind == "write" && s.Loc == "ctx.Timestamp" {
-				writes = true
-			}
 		}
-		if calls && writes {
-			return fn
+		if !calls {
+			continue
+		}
+		// the builder, or the private helpers carved out of it, assign Timestamp
+		for cf := range c.A.cluster(fn) {
+			for _, s := range c.A.FnSites[cf] {
+				if s.Kind == "write" && s.Loc == "ctx.Timestamp" {
+					return fn
+				}
+			}
 		}
 	}
 	return nil
+}
+
+func (c *RC) inBuilder(fn *FuncInfo) bool {
+	b := c.proposalBuilder()
+	if b == nil {
+		return false
+	}
+	if c.builderCl == nil {
+		c.builderCl = c.A.cluster(b)
+	}
+	return c.builderCl[fn]
 }
 
 func orderedFill(fn *FuncInfo) bool {
@@ -892,4 +912,20 @@ func (c *RC) reachesAccept(fn *FuncInfo) bool {
 		return false
 	}
 	return visit(fn)
+}
+
+// orderedFillReach: the ordered fill loop is in fn or in a function it calls (extracted helper).
+func (c *RC) orderedFillReach(fn *FuncInfo, depth int) bool {
+	if orderedFill(fn) {
+		return true
+	}
+	if depth >= 2 {
+		return false
+	}
+	for _, s := range c.A.FnSites[fn] {
+		if s.Kind == "call" && s.Target != nil && s.Target != fn && c.orderedFillReach(s.Target, depth+1) {
+			return true
+		}
+	}
+	return false
 }
